@@ -512,6 +512,70 @@ class Normalizer(object):
             node.body = [ast.Pass()]
         ast.fix_missing_locations(node)
 
+    # -- N25: zip of a sequence with a generator expression over it ------------
+    def zip_same_source(self, st, before, fnode):
+        """for a, p in zip(S, (E(x) for x in S)): B   ->   for a in S:
+                                                              p = E(a); B
+        The generator expression is lazy: zip takes the next a, then the
+        expression takes the same element as x and computes E.  (A list
+        comprehension computes every E first and is left alone.)  S is a
+        plain name / attribute chain B does not rebind; the generator may
+        also be a local bound by the statement just before and used nowhere
+        else.  Returns (statements before, new loop) or None."""
+        if not (isinstance(st, ast.For) and not st.orelse and
+                isinstance(st.iter, ast.Call) and
+                isinstance(st.iter.func, ast.Name) and
+                st.iter.func.id == 'zip' and len(st.iter.args) == 2 and
+                not st.iter.keywords and
+                isinstance(st.target, (ast.Tuple, ast.List)) and
+                len(st.target.elts) == 2 and
+                isinstance(st.target.elts[0], ast.Name)):
+            return None
+        src, gen = st.iter.args
+        pre = list(before)
+        if isinstance(gen, ast.Name) and pre and isinstance(
+                pre[-1], ast.Assign) and len(pre[-1].targets) == 1 and \
+                isinstance(pre[-1].targets[0], ast.Name) and \
+                pre[-1].targets[0].id == gen.id and isinstance(
+                    pre[-1].value, ast.GeneratorExp):
+            uses = [x for x in ast.walk(fnode) if isinstance(x, ast.Name)
+                    and x.id == gen.id]
+            if len(uses) != 2:
+                return None
+            gen = pre[-1].value
+            pre = pre[:-1]
+        if not isinstance(gen, ast.GeneratorExp) or len(
+                gen.generators) != 1 or gen.generators[0].ifs or \
+                gen.generators[0].is_async or not isinstance(
+                    gen.generators[0].target, ast.Name):
+            return None
+
+        def plain(e):
+            return isinstance(e, ast.Name) or (
+                isinstance(e, ast.Attribute) and plain(e.value))
+        if not plain(src) or ast.dump(src) != ast.dump(
+                gen.generators[0].iter):
+            return None
+        root = src
+        while isinstance(root, ast.Attribute):
+            root = root.value
+        if any(isinstance(x, ast.Name) and x.id == root.id and
+               isinstance(x.ctx, ast.Store) for b in st.body
+               for x in ast.walk(b)):
+            return None
+        a = st.target.elts[0]
+        x = gen.generators[0].target.id
+        elt = Subst({x: ast.Name(id=a.id, ctx=ast.Load())}, {}).visit(
+            copy.deepcopy(gen.elt))
+        first = ast.copy_location(ast.Assign(targets=[st.target.elts[1]],
+                                             value=elt), st)
+        loop = ast.copy_location(ast.For(target=a, iter=src,
+                                         body=[first] + list(st.body),
+                                         orelse=[]), st)
+        ast.fix_missing_locations(loop)
+        self.stats['zip_same'] = self.stats.get('zip_same', 0) + 1
+        return pre, loop
+
     # -- N22: zip of a range with a generator ----------------------------------
     def zip_range_loop(self, st, ctx, fi):
         """for i, y in zip(range(a, b), G(..)): B
@@ -783,6 +847,13 @@ class Normalizer(object):
                         sub = Subst({}, {st.target.id: nm})
                         out.extend(sub.visit(b)
                                    for b in copy.deepcopy(st.body))
+                    changed[0] = True
+                    i += 1
+                    continue
+                zs = self.zip_same_source(st, out, fnode)
+                if zs is not None:
+                    out[:] = zs[0]
+                    out.append(zs[1])
                     changed[0] = True
                     i += 1
                     continue
@@ -1798,7 +1869,17 @@ class Normalizer(object):
             else:
                 new = ast.If(test=st.test, body=b, orelse=o)
             return [ast.copy_location(new, st)]
-        if isinstance(st, (ast.With, ast.Try)) and not rest and not k:
+        def all_return(t):
+            """every way through the try statement ends in return / raise:
+            nothing falls out of it, so what would follow is never reached"""
+            if not isinstance(t, ast.Try) or t.finalbody:
+                return False
+            tail = t.orelse or t.body
+            return self._terminates(tail) and all(
+                self._terminates(h.body) for h in t.handlers) and (
+                    not t.orelse or not contains(t.body, (ast.Return,)))
+        if isinstance(st, (ast.With, ast.Try)) and not rest and (
+                not k or all_return(st)):
             if isinstance(st, ast.With):
                 st.body = self.structure_returns(st.body, [], res, False) \
                     or [ast.Pass()]
@@ -1897,6 +1978,60 @@ class Normalizer(object):
             ast.fix_missing_locations(loop)
             self.stats['joins'] = self.stats.get('joins', 0) + 1
             return [first] + self.inline_stmt(loop, ctx, depth)
+        # N13b: `bytearray(g(a))` / `bytes(bytearray(g(a)))` / `list(g(a))`
+        # with g a generator of the program, as the first thing the
+        # statement evaluates: `t = bytearray(); for x in g(a): t.append(x)`
+        # in front and t in its place (then the generator is inlined)
+        if isinstance(st, (ast.Expr, ast.Assign, ast.Return)) and \
+                getattr(st, 'value', None) is not None:
+            hit = None
+            order = eval_order(st.value)
+            condpos = conditional_positions(st.value)
+            for n in order:
+                if isinstance(n, ast.Call) and isinstance(
+                        n.func, ast.Name) and n.func.id in (
+                            'bytearray', 'list') and len(n.args) == 1 \
+                        and not n.keywords and isinstance(
+                            n.args[0], ast.Call) and \
+                        n.func.id not in self._locals(ctx) and \
+                        id(n) not in condpos:
+                    r = self.resolve_call(n.args[0], ctx)
+                    if r is not None and contains(r[0].node.body,
+                                                  (ast.Yield,)):
+                        own = set(id(x) for x in ast.walk(n))
+                        before_ = [m for m in order[:order.index(n)]
+                                   if id(m) not in own]
+                        if all(isinstance(m, (ast.Name, ast.Constant,
+                                              ast.Attribute))
+                               for m in before_):
+                            hit = n
+                    break
+            if hit is not None:
+                tmp = self.fresh('_items')
+                item = self.fresh('_item')
+                ctx['names'].update((tmp, item))
+                first = ast.copy_location(ast.Assign(
+                    targets=[ast.Name(id=tmp, ctx=ast.Store())],
+                    value=ast.Call(func=ast.Name(id=hit.func.id,
+                                                 ctx=ast.Load()),
+                                   args=[], keywords=[])), st)
+                loop = ast.copy_location(ast.For(
+                    target=ast.Name(id=item, ctx=ast.Store()),
+                    iter=hit.args[0],
+                    body=[ast.copy_location(ast.Expr(value=ast.Call(
+                        func=ast.Attribute(value=ast.Name(
+                            id=tmp, ctx=ast.Load()), attr='append',
+                            ctx=ast.Load()),
+                        args=[ast.Name(id=item, ctx=ast.Load())],
+                        keywords=[])), st)],
+                    orelse=[]), st)
+                new_st = replace_node(st, hit, ast.copy_location(
+                    ast.Name(id=tmp, ctx=ast.Load()), hit))
+                for x in (first, loop, new_st):
+                    ast.fix_missing_locations(x)
+                self.stats['joins'] = self.stats.get('joins', 0) + 1
+                return [first] + self.inline_stmt(loop, ctx, depth) + \
+                    self.inline_stmt(new_st, ctx, depth)
         # N17: `with cm(args) [as v]: BODY` where cm is an in-repo generator
         # decorated with contextlib.contextmanager: the generator's body with
         # its one `yield x` replaced by `v = x; BODY` (an exception in BODY
@@ -2142,7 +2277,13 @@ class Normalizer(object):
         body = target.node.body
         ys = [n for n in walk_shallow(body)
               if isinstance(n, (ast.Yield, ast.YieldFrom))]
-        if len(ys) != 1 or not isinstance(ys[0], ast.Yield):
+        if not ys or not all(isinstance(y, ast.Yield) for y in ys):
+            return None
+        if len(ys) > 1 and (len(ys) > 4 or len(loop.body) > 2 or contains(
+                loop.body, (ast.Break, ast.Continue, ast.Return, ast.For,
+                            ast.While, ast.Try, ast.With))):
+            # several yields: the consumer's body is copied to each, which
+            # is only done for a small straight-line body
             return None
         bare_returns = contains(body, (ast.Return,))
         # a `break` of the consumer abandons the generator: as a `break`
@@ -2197,8 +2338,10 @@ class Normalizer(object):
                         raise NotInlinable('continue past the yield')
                     val = st.value.value or ast.Constant(value=None)
                     out.append(ast.copy_location(ast.Assign(
-                        targets=[loop.target], value=val), st))
-                    out.extend(loop.body)
+                        targets=[copy.deepcopy(loop.target)], value=val),
+                        st))
+                    out.extend(copy.deepcopy(loop.body) if state['done']
+                               else loop.body)
                     state['done'] = True
                     continue
                 if contains([st], (ast.Yield,)):
@@ -2383,9 +2526,64 @@ class Normalizer(object):
             return True     # one at a time: the tables above are stale
         return False
 
+    # -- N26: a tuple made in every arm and taken apart right after ----------
+    def sink_unpacking(self, fnode):
+        """try: t = (a, b)  except E: t = (c, d)        try: x, y = (a, b)
+           x, y = t                                 ->  except E: x, y = (c, d)
+        (likewise if / else), when t is assigned only as the last statement
+        of those arms, always a tuple display of the right length, and read
+        only by the unpacking."""
+        changed = False
+        for owner, f, block in self._blocks(fnode):
+            for i in range(len(block) - 1):
+                st, nx = block[i], block[i + 1]
+                if not (isinstance(st, (ast.Try, ast.If)) and
+                        isinstance(nx, ast.Assign) and len(nx.targets) == 1
+                        and isinstance(nx.targets[0], ast.Tuple) and
+                        isinstance(nx.value, ast.Name) and all(
+                            isinstance(t, ast.Name)
+                            for t in nx.targets[0].elts)):
+                    continue
+                t = nx.value.id
+                n = len(nx.targets[0].elts)
+                occ = [x for x in ast.walk(fnode) if isinstance(x, ast.Name)
+                       and x.id == t]
+                loads = [x for x in occ if isinstance(x.ctx, ast.Load)]
+                if len(loads) != 1:
+                    continue
+                arms = [st.body] + ([h.body for h in st.handlers] + (
+                    [st.orelse] if st.orelse else [])
+                    if isinstance(st, ast.Try) else [st.orelse])
+                if isinstance(st, ast.Try) and (st.finalbody or st.orelse):
+                    continue
+                lasts = []
+                okk = True
+                for arm in arms:
+                    if not arm:
+                        okk = False
+                        break
+                    a = arm[-1]
+                    if isinstance(a, ast.Assign) and len(a.targets) == 1 \
+                            and isinstance(a.targets[0], ast.Name) and \
+                            a.targets[0].id == t and isinstance(
+                                a.value, ast.Tuple) and \
+                            len(a.value.elts) == n:
+                        lasts.append(a)
+                    else:
+                        okk = False
+                        break
+                if not okk or len(lasts) != len(occ) - 1:
+                    continue
+                for a in lasts:
+                    a.targets = [copy.deepcopy(nx.targets[0])]
+                del block[i + 1]
+                changed = True
+                break
+        return changed
+
     # -- N3 ----------------------------------------------------------------
     def split_tuple_assigns(self, fnode):
-        changed = False
+        changed = self.sink_unpacking(fnode)
         for owner, f, block in self._blocks(fnode):
             out = []
             for st in block:
